@@ -169,9 +169,10 @@ def r3_both_ends_checked(ctx: Ctx) -> None:
                 continue
             for p in parts:
                 if isinstance(p, ast.Compare) and len(p.ops) == 1 and isinstance(p.ops[0], ast.Is) and unparse(p.comparators[0]) == "None":
-                    x = unparse(p.left)
-                    checked.add(env.get(x, x))
-    want = {"resolver.get_bus().get_address(value).physical": "target",
+                    from ..match import canon as _canon5
+
+                    checked.add(_canon5(fn.node, p.left))
+    want = {"resolver.get_bus().get_address(value_node.get_value()).physical": "target",
             "resolver.reloc_address.physical": "run address of the branch"}
     for expr, what in want.items():
         ctx.count("none_checks")
